@@ -998,13 +998,13 @@ def concurrency(ctx, sats, judge, spy, mode, budget, scale=1):
         for plan in triple:
             go(sat, [qa, qb, qc], plan, "orbit|orbit|orbit A^k B* A^m C* A*")
         # --- single pre-emption below the own frame (scratch state of the propagator, the node search)
-        more = set(firsts if thorough else sample(rng, firsts, 60 * scale)) if mode == "full" and (lead or thorough) else set()
+        more = set(firsts if thorough else sample(rng, firsts, 60 * scale)) if mode == "full" and lead else set()
         rest = [k for k in range(n + 1) if k not in ks and k not in more]
-        more |= set(sample(rng, rest, ((1000 if lead and mode == "full" else 150) if thorough else 20) * scale))
+        more |= set(sample(rng, rest, ((250 if lead and mode == "full" else 100) if thorough else 20) * scale))
         for k in sorted(more):
             go(sat, [qa, qb], [[0, k], [1, INF]], "orbit|orbit single pre-emption")
         # --- two pre-emptions: A^k B^m A* B*
-        ms = (set(range(1, 6)) | set(own)) if thorough and lead else \
+        ms = (set(range(1, 6)) | set(sample(rng, own[5:], 6))) if thorough and lead else \
             (set(range(1, 4 if not thorough else 6)) | set(sample(rng, own[5:], ((scale - 1) if not thorough else 4 * scale))))
         double = [[[0, k], [1, m], [0, INF], [1, INF]] for k in own for m in sorted(ms)]
         if not lead:
@@ -1013,24 +1013,24 @@ def concurrency(ctx, sats, judge, spy, mode, budget, scale=1):
             go(sat, [qa, qb], plan, "orbit|orbit two pre-emptions")
         # --- get_orbit_number against every other kind of query, both roles
         others, seen_m = [], set()
-        for q in pool:                                          # one query per kind (thorough: all of the pool)
-            if not is_orbit(q) and (thorough or q["m"] not in seen_m):
+        for q in pool:                                          # one query per kind (thorough, first TLE: all of the pool)
+            if not is_orbit(q) and ((thorough and lead) or q["m"] not in seen_m):
                 seen_m.add(q["m"])
                 others.append(q)
         for q in others:
-            kk = own if thorough and lead else (own[::2] if thorough else (own[::3] if lead else sample(rng, own, 5 * scale)))
+            kk = own if thorough and lead else (sample(rng, own, 8) if thorough else (own[::3] if lead else sample(rng, own, 5 * scale)))
             if mode == "full" and thorough and lead:
                 kk = sorted(set(kk) | set(firsts[::3]))
             for k in kk:
                 go(sat, [qa, q], [[0, k], [1, INF]], "orbit pre-empted by " + q["m"])
             nq, ownq, firstsq, _ = points_of(sat, q, occ=1)
             pts = sorted(set(ownq) | set(firstsq) | {nq})
-            pts = sample(rng, pts, ((40 if lead else 15) if thorough else ((8 if lead else 4) if mode == "full" else 4)) * scale)
+            pts = sample(rng, pts, ((25 if lead else 8) if thorough else ((8 if lead else 4) if mode == "full" else 4)) * scale)
             for k in pts:
                 go(sat, [qa, q], [[1, k], [0, INF]], q["m"] + " pre-empted by orbit")
         # --- sampled multi-pre-emption schedules; 3 threads in the thorough tier; sometimes on a warmed object
         nthreads = 3 if thorough else 2
-        for _ in range(ctx.size(25, 400) * scale):
+        for _ in range(ctx.size(25, 120) * scale):
             qs = [orbit_query(rng) if rng.random() < 0.7 else rng.choice(pool) for _ in range(nthreads)]
             if any(sat.fresh(q) is None for q in qs):
                 continue
@@ -1134,7 +1134,7 @@ def correspond(ctx):
     scheduler; sequential histories) must be the model's trace when replayed in the observed thread order; every stored or
     loaded value must be the canonical one."""
     drv = ctx.driver()
-    budget = Budget(ctx, 28 if ctx.tier == "quick" else 240)
+    budget = Budget(ctx, 28 if ctx.tier == "quick" else 190)
     sats = gen_sats(ctx, ctx.size(2, 6))
     lines, expects, cases = [], [], []
 
@@ -1177,7 +1177,7 @@ def oracle(ctx):
     """The property on the implementation, from the statement alone (no model, no instrumentation of the object)."""
     scale = 4 if ctx.intensified else 1
     quick = ctx.tier == "quick"
-    budget = Budget(ctx, (18 if not ctx.intensified else 40) if quick else 240)
+    budget = Budget(ctx, (18 if not ctx.intensified else 40) if quick else 200)
     sats = gen_sats(ctx, ctx.size(3, 10))
 
     def viol(kind, case, observed, required, site):
@@ -1200,7 +1200,7 @@ def oracle(ctx):
             if len(ctx.violations) > 20:
                 return
     # (1b) aliasing histories: one argument buffer re-used and changed in place between consecutive queries
-    budget = Budget(ctx, (6 if not ctx.intensified else 15) if quick else 60)
+    budget = Budget(ctx, (6 if not ctx.intensified else 15) if quick else 50)
     for sat in sats:
         for _ in range(ctx.size(40, 400) * scale):
             if budget.over():
@@ -1213,7 +1213,7 @@ def oracle(ctx):
                 ctx.bump("alias_steps", "%s after %s" % (st["m"], "+".join(m["op"] for m in st["mut"]) or "no change"))
             if len(ctx.violations) > 20:
                 return
-    budget = Budget(ctx, (30 if not ctx.intensified else 60) if quick else 420)
+    budget = Budget(ctx, (30 if not ctx.intensified else 60) if quick else 330)
 
     # (2) schedules
     def judge(sat, queries, plan, r, warm):
@@ -1221,7 +1221,7 @@ def oracle(ctx):
         judge_results(sat, queries, plan, r, viol, warm)
         ctx.distinct((sat.tle[0][2:7], "s", tuple(qkey(q) for q in queries), json.dumps(plan)))
     concurrency(ctx, sats[:ctx.size(2, 6)], judge, spy=False, mode="full", budget=budget, scale=scale)
-    budget = Budget(ctx, 6 if quick else 60)
+    budget = Budget(ctx, 6 if quick else 40)
     for si, sat in enumerate(sats[:2]):
         free_running(ctx, sat, viol, ctx.size(10, 200), budget.share(2 - si))
     drain()
